@@ -40,6 +40,7 @@ class Contract(object):
         self.canary_ok = True
         self.reveal_ = []
         self.caller_view_ = []
+        self.split_depth = None      # explore sub-trees below this decision depth in parallel
 
     # --- DSL ---------------------------------------------------------------
     def pre(self, builder):
@@ -88,6 +89,10 @@ class Contract(object):
 
     def summary(self, fn):
         self.summary_fn = fn
+        return self
+
+    def split(self, depth):
+        self.split_depth = depth
         return self
 
     def use_modular(self, flag=True):
